@@ -270,8 +270,10 @@ def async_part(chk, faults, ckpts, io, config):
           try:
             with warnings.catch_warnings():
               warnings.simplefilter('ignore')
-              ckpts.save_checkpoint(d, payload(e['pay']), e['step'], keep=e['keep'], overwrite=e['ow'],
+              tgt = payload(e['pay'])
+              ckpts.save_checkpoint(d, tgt, e['step'], keep=e['keep'], overwrite=e['ow'],
                                     keep_every_n_steps=e['every'] or None, async_manager=am)
+              tgt['a'] += 1000      # the caller goes on and updates its host buffers in place
             outcomes.append('ok')
           except (errors.InvalidCheckpointError, ValueError):
             outcomes.append('invalid')
@@ -301,7 +303,23 @@ def async_part(chk, faults, ckpts, io, config):
       real = sorted(os.listdir(d))
       exp = sorted(f'checkpoint_{st}' for t, st, c in h[-1]['dir'] if t == 'c')
       want = [e['outcome'] for e in h]
+      contents = {}
+      if not dead and real == exp:
+        for t, st, c in h[-1]['dir']:
+          if t == 'c':
+            try:
+              with warnings.catch_warnings():
+                warnings.simplefilter('ignore')
+                r = ckpts.restore_checkpoint(d, None, step=st)
+              contents[st] = (np.asarray(r['a']).tolist(), (np.arange(3) + c).tolist())
+            except Exception as ex:  # noqa
+              contents[st] = (f'raised {type(ex).__name__}', (np.arange(3) + c).tolist())
       shutil.rmtree(d, ignore_errors=True)
+      stale = {st: v for st, v in contents.items() if v[0] != v[1]}
+      if stale:
+        chk.violation(key, f'AsyncManager schedule {">".join(sch)}: restored contents {stale} (got, tree at the time of the save call): an '
+                           'asynchronous save must store what the synchronous save stores', {'history': h, 'schedule': sch})
+        break
       if dead:
         chk.violation(key, f'AsyncManager schedule {"".join(x[0] for x in sch)}: deadlock / caller never finished', {'history': h, 'schedule': sch})
         break
